@@ -57,6 +57,7 @@ pub fn worker_main(args: &[String]) -> i32 {
         i += 1;
     }
     crate::panics::install_hook();
+    install_logger();
     let jobs_txt = std::fs::read_to_string(&jobs).expect("jobs file");
     let outf = Arc::new(Mutex::new(
         std::fs::OpenOptions::new()
@@ -104,6 +105,20 @@ pub fn worker_main(args: &[String]) -> i32 {
             writeln!(f, "S {}", idx).unwrap();
             f.flush().unwrap();
         }
+        // proc.loglevel: the consumer process may or may not have a logger installed, at any
+        // level; the level is a pure function of the job index (log arguments are only
+        // evaluated when their level is enabled)
+        log::set_max_level(match std::env::var("VERIF_LOG_LEVEL").ok().as_deref() {
+            Some("off") => log::LevelFilter::Off,
+            Some("error") => log::LevelFilter::Error,
+            Some("warn") => log::LevelFilter::Warn,
+            Some("trace") => log::LevelFilter::Trace,
+            _ => match idx % 4 {
+                0 => log::LevelFilter::Off,
+                1 => log::LevelFilter::Warn,
+                _ => log::LevelFilter::Trace,
+            },
+        });
         CUR_START_MS.store(t0.elapsed().as_millis() as u64, Ordering::SeqCst);
         CUR_JOB.store(idx, Ordering::SeqCst);
         let o = crate::engines::run_job(&mut ctx, &job);
@@ -122,4 +137,28 @@ pub fn worker_main(args: &[String]) -> i32 {
         }
     }
     0
+}
+
+/// A logger that formats every enabled record (so Display / Debug code of the arguments runs)
+/// and discards the text.
+struct SinkLogger;
+
+impl log::Log for SinkLogger {
+    fn enabled(&self, _m: &log::Metadata) -> bool {
+        true
+    }
+    fn log(&self, record: &log::Record) {
+        use std::fmt::Write as _;
+        let mut s = String::new();
+        let _ = write!(s, "{}", record.args());
+        std::hint::black_box(s.len());
+    }
+    fn flush(&self) {}
+}
+
+static SINK: SinkLogger = SinkLogger;
+
+fn install_logger() {
+    let _ = log::set_logger(&SINK);
+    log::set_max_level(log::LevelFilter::Off);
 }
